@@ -37,9 +37,29 @@ func like(left, right string) (string, error) {
 		return fmt.Sprintf("%s ~ %s", left, right), nil
 	}
 
-	right = strings.ReplaceAll(right, "*", "%")
-	right = strings.ReplaceAll(right, "?", "_")
-	return fmt.Sprintf("%s SIMILAR TO %s", left, right), nil
+	return fmt.Sprintf("%s SIMILAR TO %s", left, toSQLWildcards(right)), nil
+}
+
+// toSQLWildcards replaces the lucene wildcards * and ? with their sql equivalents % and _.
+// An escaped wildcard (\* or \?) is a literal character in lucene so it is left alone, which
+// is also how SIMILAR TO spells a literal * or ?.
+func toSQLWildcards(s string) string {
+	var sb strings.Builder
+	for i := 0; i < len(s); i++ {
+		switch {
+		case s[i] == '\\' && i+1 < len(s):
+			sb.WriteByte(s[i])
+			i++
+			sb.WriteByte(s[i])
+		case s[i] == '*':
+			sb.WriteByte('%')
+		case s[i] == '?':
+			sb.WriteByte('_')
+		default:
+			sb.WriteByte(s[i])
+		}
+	}
+	return sb.String()
 }
 
 func likeParam(left, right string, params []any) (string, error) {
